@@ -75,6 +75,15 @@ func forwardSliceOpt(fn *ssa.Function, followMap bool, seeds ...ssa.Value) map[s
 					push(x.Map)
 				}
 			case ssa.Value:
+				if !followMap {
+					// a slice that is appended to carries the order of the appends, not a value: the ORDER rules require it to be
+					// sorted before it is read (unordered-slice clause), so the taint does not pass through it
+					if c, ok := x.(*ssa.Call); ok {
+						if bi, ok := c.Call.Value.(*ssa.Builtin); ok && bi.Name() == "append" {
+							continue
+						}
+					}
+				}
 				push(x)
 			}
 		}
